@@ -991,3 +991,33 @@ Proof.
   - apply (pathS _ 0 0 0 1); [constructor | vm_compute; auto].
   - vm_compute. auto.
 Qed.
+
+(* ------------------------------------------------------------------ served_ok is needed (audit F1)
+   A descriptor that carries fields which are not the manifest's (e.g. the annotations /
+   artifactType of the index entry pointing to it, as a reloaded OCI layout served them
+   before fix 53cd0be) is judged on those fields: the filters do not fetch then. *)
+Definition embedded_source : source :=
+  mkSource (fun x => match x with
+                     | 0 => [mkDesc 1 (b "application/vnd.fake.type")
+                                    (Some [(b "vnd.docker.reference.type", b "attestation-manifest")])]
+                     | _ => [] end)
+           (fun x => match x with 1 => KImage | _ => KOther end)
+           (fun _ => [])
+           (fun x => match x with 1 => b "application/vnd.oci.image.config.v1+json" | _ => [] end)
+           (fun _ => None) false.
+
+Lemma filter_exact_refuted_embedded :
+  let keyf := [FAnn (b "vnd.docker.reference.type") None] in
+  let typf := [FArt (Some (str_eqb (b "application/vnd.oci.image.config.v1+json")))] in
+  ~ Forall (served_ok embedded_source) (s_preds embedded_source 0) /\
+  map d_id (find_preds embedded_source keyf 0) = [1] /\
+  List.filter (fun id => forallb (fun f => keep_spec embedded_source f id) keyf)
+              (map d_id (s_preds embedded_source 0)) = [] /\
+  map d_id (find_preds embedded_source typf 0) = [] /\
+  List.filter (fun id => forallb (fun f => keep_spec embedded_source f id) typf)
+              (map d_id (s_preds embedded_source 0)) = [1].
+Proof.
+  split; [|vm_compute; repeat split].
+  intro H. inversion H as [|p l Hp _]; subst. destruct Hp as ((Ha & _) & _).
+  destruct Ha as [Ha | Ha]; vm_compute in Ha; discriminate.
+Qed.
